@@ -32,20 +32,27 @@ def field_writes(fn):
     return out
 
 
+def _factors(e):
+    e = A.unblock(e)
+    if e.get("k") == "Binary" and e["op"] == "*":
+        return _factors(e["left"]) + _factors(e["right"])
+    return [str(A.ftxt(A.unblock(e)))]
+
+
 def r1_matrix(rule, root=None):
-    want = {"View2": "{(self.translation_mat()*self.scale_mat())}", "View3": "{((self.translation_mat()*self.rot_mat())*self.scale_mat())}"}
-    for ty, w in want.items():
-        fn = vfn(ty, "world_to_model", root)
-        if txt(fn["body"]) == w:
-            rule.ok("%s::world_to_model = translate x %sscale" % (ty, "rotate x " if ty == "View3" else ""), file=GUI, line=fn["ln"])
+    """world_to_model is the product translation x (rotation x) scale of the view's own components, read with
+    private helpers expanded (whether or not scale / translation have their own helper functions)"""
+    for ty, dim in (("View2", "3"), ("View3", "4")):
+        fn0 = vfn(ty, "world_to_model", root)
+        body = A.inline_helpers(fn0, keep=("rot_mat",))
+        fs = _factors(body)
+        want = ["Matrix%s::new_translation(&self.center)" % dim] + (["self.rot_mat()"] if ty == "View3" else []) + ["Matrix%s::new_scaling(self.scale)" % dim]
+        if fs == want:
+            rule.ok("%s::world_to_model = translate x %sscale" % (ty, "rotate x " if ty == "View3" else ""), file=GUI, line=fn0["ln"])
+            rule.ok("%s: scale factor is built from self.scale" % ty)
+            rule.ok("%s: translation is built from self.center" % ty)
         else:
-            rule.bad("%s|world_to_model" % ty, "%s::world_to_model is `%s`; it must be translation x %sscale" % (ty, txt(fn["body"]), "rotation x " if ty == "View3" else ""), A.where(fn))
-        for helper, frag in (("scale_mat", "new_scaling(self.scale)"), ("translation_mat", "new_translation(&self.center)")):
-            f = vfn(ty, helper, root)
-            if frag in txt(f["body"]):
-                rule.ok("%s::%s is built from its namesake component" % (ty, helper))
-            else:
-                rule.bad("%s|%s" % (ty, helper), "%s::%s must be built from %s" % (ty, helper, frag), A.where(f))
+            rule.bad("%s|world_to_model" % ty, "%s::world_to_model is the product %s; it must be translation(center) x %sscaling(scale)" % (ty, fs, "rotation x " if ty == "View3" else ""), A.where(fn0))
         f = vfn(ty, "transform_point", root)
         if txt(f["body"]) == "{self.world_to_model().transform_point(p)}":
             rule.ok("%s::transform_point applies world_to_model" % ty)
@@ -164,7 +171,8 @@ def r4_siblings(rule, root=None):
     for ty in ("View2", "View3"):
         fn = vfn(ty, "zoom", root)
         t = txt(fn["body"])
-        if t.replace("}None", "},None").replace(",}(", ",}(") == want or t == want or t.replace("}None", "},None") == want.replace(",}(amount", "}(amount") or _zoom_ok(fn):
+        alt_b = t.fmatch("{let$A=pos.map(|$P|($P,self.transform_point(&$P)));(self.scale*=amount);ifletSome(($Q,$B))=$A{let$C=self.transform_point(&$Q);(self.center+=($B-$C));}(amount!=1.0)}") is not None
+        if alt_b or t.replace("}None", "},None").replace(",}(", ",}(") == want or t == want or t.replace("}None", "},None") == want.replace(",}(amount", "}(amount") or _zoom_ok(fn):
             rule.ok("%s::zoom re-centres by (model point under the cursor before) - (after), through the full matrix" % ty)
         else:
             rule.bad("%s|zoom|recenter" % ty, "%s::zoom must transform the cursor point through the full world_to_model before and after scaling and add the difference to the centre" % ty, A.where(fn))
@@ -239,10 +247,17 @@ def r6_canvases(rule, root=None):
         else:
             rule.bad("%s|interact|flags" % ty, "%s::interact must OR the flags of drag and zoom and end the drag on both no-drag paths" % ty, A.where(fn))
         fn = vfn(ty, "begin_drag", root)
-        if "ifself.drag_start.is_none()" in txt(fn["body"]):
+        ws = A.guarded_writes(fn["body"], "self.drag_start")
+        okg = bool(ws)
+        for left, _val, conds, node in ws:
+            pc = A.path_conjuncts(fn["body"], node) or set()
+            allc = {A.norm_cond(c_) for c_ in conds} | {A.norm_cond(c_) for c_ in pc}
+            if not ({"self.drag_start.is_none()", "!self.drag_start.is_some()"} & allc):
+                okg = False
+        if okg:
             rule.ok("%s::begin_drag is idempotent while a drag is active" % ty)
         else:
-            rule.bad("%s|begin_drag" % ty, "%s::begin_drag must not re-grab while a drag is active" % ty, A.where(fn))
+            rule.bad("%s|begin_drag" % ty, "%s::begin_drag must not re-grab while a drag is active (the handle may only be stored when none is)" % ty, A.where(fn))
         fn = vfn(ty, "zoom", root)
         if "self.view.zoom(((amount/100.0)).exp2(),pos_world)" in txt(fn["body"]) or "self.view.zoom((amount/100.0).exp2(),pos_world)" in txt(fn["body"]):
             rule.ok("%s::zoom: zero scroll is factor 1" % ty)
@@ -256,7 +271,11 @@ def r6_canvases(rule, root=None):
         rule.bad("Canvas3|drag", "Canvas3::drag must route Pan to translate and Rotate to rotate", A.where(fn))
     fn = vfn("Canvas3", "begin_drag", root)
     t = txt(fn["body"])
-    if "DragMode::Pan=>{Drag3::Pan(self.view.begin_translate(pos_world))}" in t and "DragMode::Rotate=>{Drag3::Rotate(self.view.begin_rotate(pos_world))}" in t:
+    arms_ = {}
+    for m_ in A.find(fn["body"], "Match"):
+        for a_ in m_["arms"]:
+            arms_[str(txt(a_["pat"]))] = str(txt(A.unblock(a_["body"])))
+    if arms_.get("DragMode::Pan") == "Drag3::Pan(self.view.begin_translate(pos_world))" and arms_.get("DragMode::Rotate") == "Drag3::Rotate(self.view.begin_rotate(pos_world))":
         rule.ok("Canvas3::begin_drag creates the handle matching the requested mode")
     else:
         rule.bad("Canvas3|begin_drag|mode", "Canvas3::begin_drag must create a pan handle for Pan and a rotate handle for Rotate", A.where(fn))
